@@ -11,9 +11,9 @@ git diff > /tmp/rebased_$$.diff
 T=$(/venv/bin/python -m pytest -q -p no:cacheprovider --timeout=900 2>&1 | tail -1)
 F=$(/venv/bin/python -m pytest -q -p no:cacheprovider --timeout=900 2>&1 | grep '^FAILED' | grep -v 'test_object\|test_measure' || true)
 set +e
-/venv/bin/python $D/demo.py >/dev/null 2>&1; RW=$?
-git checkout -q -- .
-/venv/bin/python $D/demo.py >/dev/null 2>&1; RO=$?
+cp $D/demo.py ./_demo.py; /venv/bin/python ./_demo.py >/dev/null 2>&1; RW=$?
+git checkout -q -- .; true
+cp $D/demo.py ./_demo.py; /venv/bin/python ./_demo.py >/dev/null 2>&1; RO=$?
 cd /; git -C /repo worktree remove --force $WT
 echo "$ID: tests: $T | extra failures: [$F] | demo with=$RW without=$RO"
 if [ -z "$F" ] && [ $RW -ne 0 ] && [ $RO -eq 0 ]; then cp /tmp/rebased_$$.diff $D/patch.diff; echo "REBASED+CONFIRMED"; else echo "NOT CONFIRMED"; fi
